@@ -1605,3 +1605,95 @@ def _bool_context(node) -> bool:
     while isinstance(p, (ast.BoolOp, ast.UnaryOp)):
         node, p = p, getattr(p, '_parent', None)
     return isinstance(p, (ast.If, ast.While, ast.IfExp)) and p.test is node
+
+
+# ---------------------------------------------------------------------------
+# C19.O (addition) — define-or-refer objects: whoever runs first carries the definition, so whoever runs first is emitted first
+# ---------------------------------------------------------------------------
+def lazy_definers(table):
+    """attr -> functions that contain `if not hasattr(arg, '_attr'): arg._attr = <definition>` (inline definition on first use, a reference by id afterwards)"""
+    out: Dict[str, Set[str]] = {}
+    for fname, (m, f) in table.items():
+        for st in ast.walk(f):
+            if isinstance(st, ast.If) and isinstance(st.test, ast.UnaryOp) and isinstance(st.test.op, ast.Not) and isinstance(st.test.operand, ast.Call) \
+                    and isinstance(st.test.operand.func, ast.Name) and st.test.operand.func.id == 'hasattr' and len(st.test.operand.args) == 2 \
+                    and isinstance(st.test.operand.args[1], ast.Constant) and isinstance(st.test.operand.args[0], ast.Name) and st.test.operand.args[0].id in ARG_NAMES:
+                attr = st.test.operand.args[1].value
+                if any(isinstance(x, ast.Attribute) and isinstance(x.ctx, ast.Store) and x.attr == attr for b in st.body for x in ast.walk(b)):
+                    out.setdefault(attr, set()).add(fname)
+    return out
+
+
+def check_first_user_is_emitted_first(ctx, rep):
+    """The specification list is processed in order and a string is a reference to an object defined EARLIER.  A shared object that is written inline by whichever builder
+    asks first (`if not hasattr(arg, '_data_type')`) therefore has to be asked for in the order in which the results are emitted: in every function that calls two builders
+    reaching such a definition, the one that is called first is the one that comes first in the list."""
+    table = {}
+    for mname, m in ctx.prog.modules.items():
+        if mname.startswith('torchtree.cli'):
+            for fname, f in m.functions.items():
+                table.setdefault(fname, (m, f))
+    definers = lazy_definers(table)
+    if not definers:
+        rep.incomplete('C19.O', 'define-or-refer', '', 'no lazily defined shared object found (arg._data_type expected)')
+        return
+
+    def callees(f):
+        return {c.func.id for c in ast.walk(f) if isinstance(c, ast.Call) and isinstance(c.func, ast.Name) and c.func.id in table}
+    closure: Dict[str, Set[str]] = {}
+
+    def reach(fname, seen=frozenset()):
+        if fname in closure:
+            return closure[fname]
+        out = {fname}
+        for g in callees(table[fname][1]):
+            if g not in seen:
+                out |= reach(g, seen | {fname})
+        if not seen:
+            closure[fname] = out
+        return out
+    n = 0
+    for attr, D in sorted(definers.items()):
+        for fname, (m, f) in sorted(table.items()):
+            # executed order: statements in source order, calls inside a statement left to right
+            calls = []
+            for st in [s for s in ast.walk(f) if isinstance(s, ast.stmt) and not isinstance(s, (ast.If, ast.For, ast.While, ast.With, ast.Try, ast.FunctionDef))]:
+                for c in ast.walk(st):
+                    if isinstance(c, ast.Call) and isinstance(c.func, ast.Name) and c.func.id in table and c.func.id not in D and reach(c.func.id) & D or \
+                            (isinstance(c, ast.Call) and isinstance(c.func, ast.Name) and c.func.id in D):
+                        calls.append((st, c))
+            if len(calls) < 2:
+                continue
+            calls.sort(key=lambda sc: (sc[1].lineno, sc[1].col_offset))
+
+            # emitted position: where the value of the call (or the local it was assigned to) is put into a list — an element of a list display or the argument of append / insert
+            def emitted(st, c):
+                names = {t.id for t in (st.targets if isinstance(st, ast.Assign) else []) if isinstance(t, ast.Name)} if any(c is st.value for _ in [0] if isinstance(st, ast.Assign)) else set()
+                best = None
+                for s2 in ast.walk(f):
+                    if isinstance(s2, ast.List):
+                        for i, el in enumerate(s2.elts):
+                            if el is c or (isinstance(el, ast.Name) and el.id in names):
+                                pos = (s2.lineno, s2.col_offset, i)
+                                best = pos if best is None or pos < best else best
+                    if isinstance(s2, ast.Call) and isinstance(s2.func, ast.Attribute) and s2.func.attr in ('append', 'extend') and s2.args:
+                        a = s2.args[0]
+                        if a is c or (isinstance(a, ast.Name) and a.id in names):
+                            pos = (s2.lineno, s2.col_offset, 0)
+                            best = pos if best is None or pos < best else best
+                return best
+            placed = [(st, c, emitted(st, c)) for st, c in calls]
+            placed = [x for x in placed if x[2] is not None]
+            if len(placed) < 2:
+                continue
+            n += 1
+            bad = [(a, b) for i, a in enumerate(placed) for b in placed[i + 1:] if b[2] < a[2]]
+            first = bad[0] if bad else None
+            rep.check('C19.O', f"{m.name.replace('torchtree.', '')}.{fname}::arg.{attr}::first-user-is-emitted-first", not bad, where(m, first[0][1]) if first else where(m, f),
+                      {'definers': sorted(D), 'calls_in_execution_order': [c.func.id for _, c, _ in placed]},
+                      f"{fname} calls {first[0][1].func.id if first else ''}() before {first[1][1].func.id if first else ''}() but emits its result after it: the object kept in "
+                      f"arg.{attr} is written inline by whichever of them runs first and referred to by id by the other, so the specification now refers to '{attr.lstrip('_')}' "
+                      f"before the entry that defines it and torchtree rejects the file")
+    rep.analysed.setdefault('C19.O', {})['define_or_refer'] = {'attributes': sorted(definers), 'functions_with_two_users': n}
+    if n < 3:
+        rep.incomplete('C19.O', 'define-or-refer', '', f"only {n} functions calling two users of a lazily defined object found")
